@@ -301,7 +301,27 @@ def compare_history(mres, ires):
                     "impl": "crash(%s)" % crash if crash else "<missing>"}, None
         f = diff_fields(mr, ir)
         if f:
-            return {"idx": idx, "fields": f, "model": mres["lines"][ml.index(mr)],
+            # the first differing call is the replay; the projection of a property may only show a
+            # difference at a later call (e.g. a stale record first, an extra trace later): collect the
+            # differing fields of the whole history
+            allf = set(f)
+            first_by = {x: idx for x in f}
+            for mr2 in ml[ml.index(mr) + 1:]:
+                ir2 = imap.get(mr2["idx"])
+                if ir2 is None or mr2.get("kind", mr2["out"]) in ("fault", "abort"):
+                    if ir2 is None or mr2.get("kind", mr2["out"]) != ir2.get("kind", ir2["out"]):
+                        allf.add("kind")
+                        first_by.setdefault("kind", mr2["idx"])
+                    break
+                for x in diff_fields(mr2, ir2):
+                    allf.add(x)
+                    first_by.setdefault(x, mr2["idx"])
+            if mres.get("live") is not None and ires.get("live") is not None and mres["live"] != ires["live"] \
+                    and not ires.get("crash"):
+                allf.add("live")
+                first_by.setdefault("live", "F")
+            return {"idx": idx, "fields": allf, "first_by_field": first_by,
+                    "model": mres["lines"][ml.index(mr)],
                     "impl": ires["lines"][il.index(ir)]}, None
     # the implementation must not have produced abnormal lines the model lacks
     midx = {r["idx"] for r in ml}
